@@ -206,7 +206,10 @@ def cell_1x1(chk, tab, mm, *, variant, mode, delayed, sp, sn, dt, dyadic, d, B, 
 
 
 # ------------------------------------------------------------------ several cells on one trainer
-def cells_on_one_trainer(chk, tab, mm, *, variant, rng, T, guards):
+POOL_DIMS = ("lr", "sign", "mode", "tc", "delayed", "delay")
+
+
+def cells_on_one_trainer(chk, tab, mm, *, variant, rng, T, guards, force=None, kind=None):
     rule = spec_rule(variant)
     three = rule in ("mstdp", "mstdpet")
     n = 3 if guards else 2
@@ -221,24 +224,51 @@ def cells_on_one_trainer(chk, tab, mm, *, variant, rng, T, guards):
         hp = with_form(hp, hp_keys(hp), rng.choice(["float", "t0", "mixed"]), rng)
         hdrs.append({"rule": variant, "hp": hp, "conn": {"kind": "dense", "M": 1, "N": 1}, "dt": dt, "B": 1,
                      "reduction": rng.choice(["sum", "mean"]), "dmax": None if d is None else 2, "delay": d})
-    if not guards and rng.random() < 0.5:
+    if force or (not guards and rng.random() < 0.5):
         # the cells are two connections of ONE Biclique into ONE neuron group (same step time): candidates for
         # monitor pooling.  Half of these runs differ ONLY in the learning rates, so that every monitor whose
         # configuration does not depend on them is legitimately shared and every other one must not be.
+        # (a third of them instead ONE connection into SEVERAL neuron groups: the presynaptic-side monitors are the
+        #  pooling candidates, the delayed flag among the things that may differ, and the one updater sums the cells)
+        kind = kind or ("conn" if rng.random() < 0.34 else True)
         for h in hdrs:
-            h["shared"], h["dt"] = True, hdrs[0]["dt"]
-        if rng.random() < 0.5:
+            h["shared"], h["dt"] = kind, hdrs[0]["dt"]
+            if kind == "conn":
+                h["delay"], h["dmax"] = hdrs[0]["delay"], hdrs[0]["dmax"]
+        if force or rng.random() < 0.65:
+            if force in ("delay", "delayed") and hdrs[0]["dmax"] is None:
+                hdrs[0]["dmax"], hdrs[0]["delay"] = 2, rng.choice([0, 1, 2])
             for h in hdrs[1:]:
                 form = h["hp"].get("form")
                 h["hp"] = dict(hdrs[0]["hp"])
-                # ONE learning rate differs, every other hyperparameter is shared: exactly the monitors whose
-                # configuration involves that rate must be private to the cell
+                # ONE thing differs, every other hyperparameter is shared: exactly the monitors whose configuration
+                # involves that thing must be private to the cell (found D48: MSTDPET pooled the trace monitors of a
+                # cumulative-mode and a nearest-mode cell)
                 lrs = [k for k in h["hp"] if k.startswith("lr_")]
-                k = rng.choice(lrs)
-                h["hp"][k] = h["hp"][k] * rng.choice([0.5, 2.0, 0.25])
+                tcs = [k for k in h["hp"] if k.startswith("tc_")]
+                what = force or rng.choice(["lr", "lr", "sign", "mode", "mode", "tc", "delayed", "delay"])
+                h["delay"], h["dmax"] = hdrs[0]["delay"], hdrs[0]["dmax"]
+                if what == "lr":
+                    k = rng.choice(lrs)
+                    h["hp"][k] = h["hp"][k] * rng.choice([0.5, 2.0, 0.25])
+                elif what == "sign":        # same magnitude: the traces may be shared, the LTP/LTD routing may not
+                    k = rng.choice([k for k in lrs if "triplet" not in k])
+                    h["hp"][k] = -h["hp"][k]
+                elif what == "mode":
+                    h["hp"]["mode"] = "nearest" if h["hp"]["mode"] == "cumulative" else "cumulative"
+                elif what == "tc":
+                    k = rng.choice(tcs)
+                    fac = 2.0 if (dyadic or "slow" in k) else rng.choice([0.5, 2.0])
+                    if "fast" in k:         # keep the documented slow/fast relation of the triplet rule's pairs
+                        fac = 0.5
+                    h["hp"][k] = h["hp"][k] * fac
+                elif what == "delayed" and "delayed" in h["hp"]:
+                    h["hp"]["delayed"] = not h["hp"]["delayed"]
+                elif h["dmax"] is not None and kind != "conn":
+                    h["delay"] = (int(h["delay"] or 0) + rng.choice([1, 2])) % 3
+                h["differs"] = what
                 if form is not None:
                     h["hp"]["form"] = hdrs[0]["hp"].get("form")
-                h["delay"], h["dmax"] = hdrs[0]["delay"], hdrs[0]["dmax"]
 
     def expect(j, xh, yh, t, r, _d):
         return [expected(tab, rule, hdrs[j]["hp"]["mode"], hdrs[j]["delay"] or 0, xh, yh, t, r)]
@@ -250,7 +280,8 @@ def cells_on_one_trainer(chk, tab, mm, *, variant, rng, T, guards):
         chk.nontrivial.add(("multi", rule, hdrs[j]["hp"]["mode"], hdrs[j]["delay"] or 0, xh[:t + 1], yh[:t + 1], r))
 
     return multi_cells(chk, mm, variant=variant, hdrs=hdrs, via=rng.choice(["ctor", "override"]), T=T, rng=rng,
-                       three=three, dyadic=dyadic, expect=expect, params=params, guards=guards, on_edge=on_edge)
+                       three=three, dyadic=dyadic, expect=expect, params=params, guards=guards, on_edge=on_edge,
+                       dense=bool(force))
 
 
 # ------------------------------------------------------------------ the check
@@ -321,8 +352,23 @@ def run(tier: str, seed: int) -> int:
         variant = VARIANTS[j % len(VARIANTS)]
         emc += cells_on_one_trainer(chk, tab, mm, variant=variant, rng=rng, guards=(j // len(VARIANTS)) % 3 == 0,
                                     T=Tg if spec_rule(variant) in ("stdp", "triplet") else T3g)
-    chk.note(f"several cells on one trainer (own hyperparameters, cells=..., guards): {nmc} runs, {emc} (cell, step) "
-             f"comparisons, mismatches so far={len(mm)}")
+    # monitor pooling, one dimension at a time: two cells of one Biclique sharing the neuron group that differ in exactly
+    # one thing (a learning rate, its sign, the trace mode, a time constant, the delayed flag, the delay)
+    npool = 0
+    for variant in VARIANTS:
+        for what in POOL_DIMS:
+            if what == "delayed" and variant == "mstdpet":
+                continue
+            for k in range(12 if quick else 80):
+                if what == "delay" and k % 2:
+                    continue
+                emc += cells_on_one_trainer(chk, tab, mm, variant=variant, rng=rng, guards=False, force=what,
+                                            kind="conn" if k % 2 else True,
+                                            T=Tg if spec_rule(variant) in ("stdp", "triplet") else T3g)
+                npool += 1
+    nmc += npool
+    chk.note(f"several cells on one trainer (own hyperparameters, cells=..., guards): {nmc} runs ({npool} of them two "
+             f"pooled cells differing in one dimension), {emc} (cell, step) comparisons, mismatches so far={len(mm)}")
     e11 += emc
     chk.traces += nmc
     chk.extra["cell_runs"] = n11
